@@ -111,6 +111,28 @@ TARGETS = [
     T("sha2big.c", "H512", "table", "H512", "sha_H512", "C05", lang="c"),
 ]
 
+# ---- self-test of the translator: harness/leaf_selftest.cc, one function per construct of the subset (no tie theorem;
+#      compared with the compiled functions by harness/leafcheck.py)
+ST = os.path.join(HERE, "leaf_selftest.cc")
+I30 = (-2 ** 30, 2 ** 30)
+TARGETS += [
+    T(ST, "st_", "table", "_ZL6st_tab", "st_tab", "selftest"),
+    T(ST, "st_", "scalar", "_ZL7st_bias", "st_bias", "selftest"),
+    T(ST, "st_", "func", "st_for_sum", "st_for_sum", "selftest"),
+    T(ST, "st_", "func", "st_switch", "st_switch", "selftest", dom=[(-2 ** 31, 2 ** 31 - 1), I30]),
+    T(ST, "st_", "func", "st_dowhile", "st_dowhile", "selftest"),
+    T(ST, "st_", "func", "st_u8", "st_u8", "selftest"),
+    T(ST, "st_", "func", "st_short", "st_short", "selftest"),
+    T(ST, "st_", "func", "st_divmod", "st_divmod", "selftest", dom=[(-2 ** 20, 2 ** 20), (-2 ** 31, 2 ** 31 - 1)]),
+    T(ST, "st_", "func", "st_u64", "st_u64", "selftest"),
+    T(ST, "st_", "func", "st_bool", "st_bool", "selftest"),
+    T(ST, "st_", "func", "st_nested", "st_nested", "selftest", dom=[(-5, 70)]),
+    T(ST, "st_", "func", "st_char", "st_char", "selftest", dom=[(-128, 127), I30]),
+    T(ST, "st_", "func", "st_ternary", "st_ternary", "selftest", dom=[I30, I30, I30]),
+    T(ST, "st_", "func", "st_table", "st_table", "selftest"),
+    T(ST, "st_", "func", "st_two_loops", "st_two_loops", "selftest", dom=[(-5, 150)]),
+]
+
 # ------------------------------------------------------------------------------------------------ clang
 CLANGXX = os.environ.get("VERIF_CLANGXX", "clang++")
 CLANG = os.environ.get("VERIF_CLANG", "clang")
@@ -461,6 +483,7 @@ class Fn:
         self.nloops = 0
         self.uses_fuel = False
         self.self_rec = False
+        self.calls_fuel = False
         self.callees = []
 
     # ---- expressions: return (code, type)
@@ -624,11 +647,16 @@ class Fn:
         tgt = self.tr.function_for(rd, self.t, self.dump, cal)
         self.callees.append(tgt["out"])
         fn = self.tr.translated_fn(tgt)
-        if fn.uses_fuel:
-            fail("call of '%s', which itself needs fuel" % rd.get("name"))
         for (c, ty), pty in zip(args, fn.param_types):
             if ty != pty:
                 fail("argument of a call not converted to the parameter type")
+        if fn.uses_fuel:
+            # the callee's loops get the caller's whole fuel
+            if self.self_rec:
+                fail("a recursive function calling '%s', which needs fuel" % rd.get("name"))
+            self.uses_fuel = True
+            self.calls_fuel = True
+            return "(%s fuel0 %s)" % (tgt["out"], " ".join(c for c, _ in args)), ctype(n)
         return "(%s %s)" % (tgt["out"], " ".join(c for c, _ in args)), ctype(n)
 
     # ---- statements (continuation passing): S(list, env, k, ctx) -> code; k(env) is the code of what follows
@@ -837,17 +865,32 @@ class Fn:
             cond = cond or None
             inc = inc or None
 
+        nested = bool(ctx.get("in_loop"))
+        if nested and any(x.get("kind") == "ReturnStmt" for x in walk(s)):
+            fail("return inside a loop that is nested in another loop")
+
         def after_init(env1):
             self.nloops += 1
             lname = "%s_loop%d" % (self.name, self.nloops)
             params = " ".join("(%s : %s)" % (g, coqty(ty)) for (_, g, ty, _) in env1)
-            args = lambda e: " ".join(g for (_, g, _, _) in env1)     # noqa: E731
+            names = [g for (_, g, _, _) in env1]
+            args = lambda e: " ".join(names)     # noqa: E731
             again = lambda e: "%s fuel0 fuel %s" % (lname, args(e))   # noqa: E731
+            if nested:
+                # a loop inside a loop is a function of its own that returns the state; the enclosing loop goes on with it
+                state = names[0] if len(names) == 1 else "(" + ", ".join(names) + ")"
+                leave = lambda e: state      # noqa: E731
+                rty = " * ".join(coqty(ty) for (_, _, ty, _) in env1)
+                dflt = state
+            else:
+                leave = lambda e: krest(e[:len(env1)])      # noqa: E731
+                rty = coqty(self.ret)
+                dflt = self.default()
             if inc is not None:
                 cont = lambda e: self.S_expr(inc, e, again)          # noqa: E731
             else:
                 cont = again
-            lctx = {"break": lambda e: krest(e[:len(env1)]), "continue": lambda e: cont(e[:len(env1)])}
+            lctx = {"break": lambda e: leave(e), "continue": lambda e: cont(e[:len(env1)]), "in_loop": True}
             if cond is not None:
                 c, cty = self.E(cond, env1)
                 if cty != BOOL:
@@ -855,13 +898,15 @@ class Fn:
             else:
                 c = "true"
             if kind == "DoStmt":
-                bcode = self.S([body], env1, lambda e: "if %s then %s\nelse\n%s" % (c, again(e), ind(krest(e[:len(env1)]), 2)), lctx)
-                step = bcode
+                step = self.S([body], env1, lambda e: "if %s then %s\nelse\n%s" % (c, again(e), ind(leave(e), 2)), lctx)
             else:
                 bcode = self.S([body], env1, lambda e: cont(e[:len(env1)]), lctx)
-                step = "if %s then\n%s\nelse\n%s" % (c, ind(bcode, 2), ind(krest(env1), 2))
+                step = "if %s then\n%s\nelse\n%s" % (c, ind(bcode, 2), ind(leave(env1), 2))
             self.defs.append("Fixpoint %s (fuel0 fuel : nat) %s {struct fuel} : %s :=\n  match fuel with\n  | O => %s\n  | S fuel =>\n%s\n  end." % (
-                lname, params, coqty(self.ret), self.default(), ind(step, 4)))
+                lname, params, rty, dflt, ind(step, 4)))
+            if nested:
+                pat = names[0] if len(names) == 1 else "'(" + ", ".join(names) + ")"
+                return "let %s := %s fuel0 fuel0 %s in\n%s" % (pat, lname, args(env1), krest(env1))
             return "%s fuel0 fuel0 %s" % (lname, args(env1))
         return self.S(pre, env, after_init, ctx)
 
@@ -948,6 +993,8 @@ class Fn:
         code = self.S([body], env, lambda e: fail("control reaches the end of the function without a return"), {})
         params = " ".join("(%s : %s)" % (g, coqty(ty)) for (_, g, ty, _) in env)
         out = list(self.defs)
+        if self.self_rec and self.calls_fuel:
+            fail("a recursive function that calls a function with loops")
         if self.self_rec:
             out.append("Fixpoint %s (fuel : nat) %s {struct fuel} : %s :=\n  match fuel with\n  | O => %s\n  | S fuel =>\n%s\n  end." % (
                 self.name, params, coqty(self.ret), self.default(), ind(code, 4)))
@@ -1152,6 +1199,7 @@ class Translator:
             t["_busy"] = False
 
     def emit(self, t, defs, comment):
+        comment = comment.replace("libqpdf/" + HERE, "harness").replace("libqpdf/../", "")
         self.emitted[t["out"]] = ["(* %s *)" % comment] + defs
 
     def src_text(self, t, node):
@@ -1215,7 +1263,7 @@ class Translator:
         vals, ety = self.table_values(t, node)
         self.emit(t, ["Definition %s : list Z :=\n  [%s]." % (t["out"], fmt_list(vals))],
                   "%s: %s %s of libqpdf/%s" % (t["out"], node["type"]["qualType"], node["name"], t["file"]))
-        self.meta[t["out"]] = {"kind": "table", "owner": t["owner"], "file": t["file"], "n": len(vals)}
+        self.meta[t["out"]] = {"kind": "table", "owner": t["owner"], "file": t["file"], "n": len(vals), "src": self.src_text(t, node)}
 
     def k_scalar(self, t):
         node = self.find_decl(t, ("VarDecl",))
@@ -1228,7 +1276,7 @@ class Translator:
             fail("constant '%s' without an initializer" % node.get("name"))
         v = norm_const(const_eval(ini[0]), ty)
         self.emit(t, ["Definition %s : Z := %s." % (t["out"], zlit(v))], "%s: %s %s of libqpdf/%s" % (t["out"], q, node["name"], t["file"]))
-        self.meta[t["out"]] = {"kind": "scalar", "owner": t["owner"], "file": t["file"]}
+        self.meta[t["out"]] = {"kind": "scalar", "owner": t["owner"], "file": t["file"], "src": self.src_text(t, node)}
 
     def k_enum(self, t):
         node = self.find_decl(t, ("EnumDecl",))
